@@ -77,6 +77,7 @@ Plan Gen(uint64_t seed, Tier tier)
     p.knobs["feerate"] = rng.range(2000, 20000);
     p.knobs["epi_mode"] = rng.chance(1, 2);  // 0: announce every missing genuine tx by wtxid, parents first; 1: announce only the deepest child
     p.knobs["epi_out"] = rng.chance(1, 3);   // the fresh honest peer is outbound (preferred) or inbound
+    p.knobs["epi_attack"] = 0;
     std::vector<uint32_t> w(X_END - X_INV, 0);
     auto W = [&](int k) -> uint32_t& { return w[k - X_INV]; };
     W(X_INV) = 10 + rng.below(20);
@@ -115,6 +116,7 @@ Plan Gen(uint64_t seed, Tier tier)
         }
         p.ops.push_back(op);
     }
+    p.knobs["epi_attack"] = rng.chance(1, 2); // drawn last
     return p;
 }
 
@@ -725,6 +727,20 @@ struct Sim {
                     if (!settled(j) && G[j].copy_since_reset) ctx.probe("epilogue_parent_fetch_after_copy_without_filter_reset");
                 announce(k);
                 auto all = [&] { for (int j = 0; j <= k; ++j) if (!settled(j)) return false; return true; };
+                if (ctx.knob("epi_attack", 0) && hops == 2 && k >= 1 && !settled(k - 1) && G[k - 1].copies[V_STRIP]) {
+                    // One precisely timed last misbehaviour: right after the honest peer has delivered the child - while the request for its
+                    // missing parent (by txid) is still waiting out its delay - an old peer pushes a witness-stripped copy of that parent.
+                    // The parent's own inputs are known, so the copy is judged and refused (not an orphan); the pending request must survive.
+                    RunHonest(kRequestBoundS, [&] { return G[k].delivered_epilogue || all(); });
+                    if (G[k].delivered_epilogue && !all()) {
+                        for (auto& pp : net->peers) {
+                            if (pp->finalized || pp->idx == H.idx) continue;
+                            DeliverCopy(*pp, k - 1, V_STRIP, "during the parent-request delay");
+                            ctx.fault("stripped_copy_during_parent_request_delay");
+                            break;
+                        }
+                    }
+                }
                 RunHonest(kRequestBoundS * hops, all);
                 if (all()) {
                     if (hops > 1) ctx.probe("epilogue_parents_fetched_by_txid");
